@@ -17,6 +17,13 @@
 // func render is the trusted definition of "the statement with the values written as properly
 // quoted literals": strings are single-quoted with \ and ' escaped by a backslash (the lexer's
 // String rule + participle.Unquote), integers are decimal, null is NULL.
+//
+// The `id` position of a PROPERTY select (`WHERE id = v`, `WHERE id IN (..)`) is rendered like any
+// other condition (the spec's tag "id"); in the native request its values are not criteria but the
+// entries of QueryRequest.ids, so the shape has two extra components: the ID conditions of the
+// statement (operators, textual order; read from the grammar tree the transformer worked on) and
+// the number of IDs in the request (expected: the number of values the spec's literalised statement
+// has at id positions).
 package main
 
 import (
@@ -278,7 +285,9 @@ type shape struct {
 	Kind   string
 	Top    bool
 	Time   bool
-	Where  string // "s=,iIN" in textual order
+	Where  string // "s=,iIN" in textual order (conditions on tags: the criteria tree)
+	IDs    string // "=,IN": the conditions on the property ID, in textual order
+	NIDs   int    // number of entries of QueryRequest.ids
 	Join   string // set of logical operators, e.g. "", "AND", "OR"
 	Order  string
 	Limit  bool
@@ -294,6 +303,7 @@ func specShape(sh map[string]any) shape {
 	kind := vlib.Str(sh, "kind")
 	out := shape{
 		Kind: kind, Top: vlib.Bool(sh, "top"), Time: vlib.Str(sh, "time") != "none", Where: strings.Join(w, ","),
+		IDs:   strings.Join(vlib.Strs(vlib.List(sh, "ids")), ","),
 		Order: vlib.Str(sh, "order"), Limit: vlib.Bool(sh, "limit"), Offset: vlib.Bool(sh, "offset"), Target: group + "/" + resource[kind],
 	}
 	if len(w) > 1 {
@@ -325,6 +335,65 @@ func flatten(c *modelv1.Criteria, conds *[]string, joins map[string]bool) {
 		flatten(e.Le.GetLeft(), conds, joins)
 		joins[strings.TrimPrefix(e.Le.GetOp().String(), "LOGICAL_OP_")] = true
 		flatten(e.Le.GetRight(), conds, joins)
+	}
+}
+
+// isID tells whether a condition of a statement record sits at the property-ID position.
+func isID(c map[string]any) bool { return vlib.Str(c, "tag") == "id" }
+
+// idValues counts the values a (literalised) statement record has at id positions.
+func idValues(s map[string]any) int {
+	n := 0
+	for _, c := range vlib.List(vlib.Map(s, "w"), "conds") {
+		if isID(vlib.Rec(c)) {
+			n += len(vlib.List(vlib.Rec(c), "args"))
+		}
+	}
+	return n
+}
+
+// idConds lists the operators of the ID conditions of a grammar tree in textual order, the way
+// extractIDsFromPredicate recognises them (identifier equal to "id" in any case).
+func idConds(e *bydbql.GrammarOrExpr, out *[]string) {
+	if e == nil {
+		return
+	}
+	and := func(a *bydbql.GrammarAndExpr) {
+		if a == nil {
+			return
+		}
+		preds := []*bydbql.GrammarPredicate{a.Left}
+		for _, r := range a.Right {
+			preds = append(preds, r.Right)
+		}
+		for _, p := range preds {
+			switch {
+			case p == nil:
+			case p.Paren != nil:
+				idConds(p.Paren, out)
+			case p.Binary != nil:
+				if n, err := p.Binary.Identifier.ToString(false); err == nil && strings.EqualFold(n, "id") {
+					switch {
+					case p.Binary.Tail != nil && p.Binary.Tail.Compare != nil:
+						*out = append(*out, p.Binary.Tail.Compare.Operator)
+					default:
+						*out = append(*out, "MATCH")
+					}
+				}
+			case p.In != nil:
+				if n, err := p.In.Identifier.ToString(false); err == nil && strings.EqualFold(n, "id") {
+					if p.In.Not != nil {
+						*out = append(*out, "NOT IN")
+					} else {
+						*out = append(*out, "IN")
+					}
+				}
+			}
+		}
+	}
+	and(e.Left)
+	for _, r := range e.Right {
+		and(r.Right)
 	}
 }
 
@@ -362,6 +431,12 @@ func realShape(r *bydbql.TransformResult) shape {
 		}
 	case *propertyv1.QueryRequest:
 		out.Kind, crit, out.Target = "property", q.Criteria, target(q.Groups, q.Name)
+		out.NIDs = len(q.Ids)
+		if g := r.Original; g != nil && g.Select != nil && g.Select.Where != nil {
+			var ids []string
+			idConds(g.Select.Where.Expr, &ids)
+			out.IDs = strings.Join(ids, ",")
+		}
 		if q.OrderBy != nil {
 			out.Order = sortName(q.OrderBy.Sort)
 		}
@@ -536,8 +611,10 @@ func pj(m proto.Message) string {
 // ---------------------------------------------------------------- replay
 
 type syncRes struct {
-	mu sync.Mutex
-	r  *vlib.Result
+	mu     sync.Mutex
+	r      *vlib.Result
+	idSeen map[string]bool // kinds of property-ID executions already written out
+	plain  int             // number of other samples
 }
 
 func (s *syncRes) violate(b, step int, sig, f string, a ...any) {
@@ -556,9 +633,38 @@ func (s *syncRes) inconclusive(f string, a ...any) {
 	s.mu.Unlock()
 }
 
+// sampleID keeps the first written-out execution of every kind of parameter at the property-ID position.
+func (s *syncRes) sampleID(kind string, x map[string]any) {
+	s.mu.Lock()
+	if s.idSeen == nil {
+		s.idSeen = map[string]bool{}
+	}
+	if !s.idSeen[kind] && len(s.idSeen) < 40 {
+		s.idSeen[kind] = true
+		x["id_sample"] = kind
+		s.r.Samples = append(s.r.Samples, x)
+	}
+	s.mu.Unlock()
+}
+
+func errText(err error) string {
+	if err == nil {
+		return ""
+	}
+	return err.Error()
+}
+
+func pj2(m proto.Message) string {
+	if m == nil {
+		return "null"
+	}
+	return pj(m)
+}
+
 func (s *syncRes) sample(x any) {
 	s.mu.Lock()
-	if len(s.r.Samples) < 8 {
+	if s.plain < 8 {
+		s.plain++
 		s.r.Samples = append(s.r.Samples, x)
 	}
 	s.mu.Unlock()
@@ -622,8 +728,10 @@ func mentions(v any, s string) bool {
 
 var textOf sync.Map // rendered text -> canonical statement: the renderer must be injective
 
-func slotKinds(s map[string]any) string {
-	// textual order, for signatures only
+// slotNames names the placeholders of a statement record in textual order (for signatures and for the
+// evidence counters; the expectation never depends on it): top, time, scalar, list, match-one, ...,
+// limit, offset; a placeholder at the property-ID position is "id-scalar" (id = ?) or "id-list" (id IN (?)).
+func slotNames(s map[string]any) []string {
 	var k []string
 	if vlib.Str(vlib.Map(s, "top"), "t") == "ph" {
 		k = append(k, "top")
@@ -634,15 +742,19 @@ func slotKinds(s map[string]any) string {
 		}
 	}
 	for _, c := range vlib.List(vlib.Map(s, "w"), "conds") {
+		pre := ""
+		if isID(vlib.Rec(c)) {
+			pre = "id-"
+		}
 		for _, a := range vlib.List(vlib.Rec(c), "args") {
 			if vlib.Str(vlib.Rec(a), "t") == "ph" {
 				switch op := vlib.Str(vlib.Rec(c), "op"); op {
 				case "=", "!=", ">":
-					k = append(k, "scalar")
+					k = append(k, pre+"scalar")
 				case "IN":
-					k = append(k, "list")
+					k = append(k, pre+"list")
 				default:
-					k = append(k, strings.ToLower(op)+"-"+vlib.Str(vlib.Rec(c), "form"))
+					k = append(k, pre+strings.ToLower(op)+"-"+vlib.Str(vlib.Rec(c), "form"))
 				}
 			}
 		}
@@ -653,7 +765,33 @@ func slotKinds(s map[string]any) string {
 	if vlib.Str(vlib.Map(vlib.Map(s, "lo"), "f"), "t") == "ph" {
 		k = append(k, "offset")
 	}
-	return strings.Join(k, "+")
+	return k
+}
+
+func slotKinds(s map[string]any) string { return strings.Join(slotNames(s), "+") }
+
+// idParams describes the parameters that sit at property-ID placeholders of an execution: one
+// "<id-scalar|id-list>_<type of the parameter>" per such placeholder that the vector reaches, a string
+// parameter being told apart as str (plain), strq (contains a quote or a backslash) or strempty.
+func idParams(stmt map[string]any, pv []any) []string {
+	var out []string
+	for i, n := range slotNames(stmt) {
+		if !strings.HasPrefix(n, "id-") || i >= len(pv) {
+			continue
+		}
+		p := vlib.Rec(pv[i])
+		t := vlib.Str(p, "t")
+		if t == "str" {
+			switch v := vlib.Str(p, "v"); {
+			case v == "":
+				t = "strempty"
+			case strings.ContainsAny(v, `'"\`):
+				t = "strq"
+			}
+		}
+		out = append(out, strings.ReplaceAll(n, "-", "")+"_"+t)
+	}
+	return out
 }
 
 func paramTypes(l []any) string {
@@ -682,8 +820,9 @@ type seen struct {
 }
 
 // check compares one real outcome with the spec's expectation for this execution.
-func (rp *replayer) check(bid, step int, path string, got outcome, wantRej bool, lit outcome, want shape, timeOp, sk, pt, text string, pv []any) bool {
+func (rp *replayer) check(bid, step int, path string, got outcome, wantRej bool, lit outcome, want shape, timeOp, sk, pt, text string, pv []any, idp []string) bool {
 	rp.res.inc("executions_" + path)
+	rp.countID(path, idp, got.rejected())
 	switch {
 	case wantRej && !got.rejected():
 		rp.res.violate(bid, step, "accepted-invalid-params:"+path+":"+sk+":"+pt,
@@ -754,6 +893,7 @@ func (rp *replayer) behaviour(b vlib.Behaviour, svc, qsvc *lgrpc.VerifBydbQL) {
 		wantRej := vlib.Str(out, "rej") != "no"
 		timeOp := vlib.Str(vlib.Map(stmt, "time"), "op")
 		sk, pt := slotKinds(stmt), paramTypes(pv)
+		idp := idParams(stmt, pv)
 		ps := params(pv)
 		var lit outcome
 		var want shape
@@ -762,6 +902,7 @@ func (rp *replayer) behaviour(b vlib.Behaviour, svc, qsvc *lgrpc.VerifBydbQL) {
 			litText = render(vlib.Map(out, "lit"))
 			lit = oneshot(litText, nil)
 			want = specShape(vlib.Map(out, "shape"))
+			want.NIDs = idValues(vlib.Map(out, "lit"))
 			if lit.rejected() {
 				rp.res.violate(b.ID, i, "literal-rejected:"+sk+":"+pt,
 					"the spec accepts `%s` with params %s, but the real transformer rejects the literalised statement `%s` at %s: %v",
@@ -778,10 +919,10 @@ func (rp *replayer) behaviour(b vlib.Behaviour, svc, qsvc *lgrpc.VerifBydbQL) {
 		ok := true
 		// (1) one-shot binder
 		o1 := oneshot(text, ps)
-		ok = rp.check(b.ID, i, "oneshot", o1, wantRej, lit, want, timeOp, sk, pt, text, pv) && ok
+		ok = rp.check(b.ID, i, "oneshot", o1, wantRej, lit, want, timeOp, sk, pt, text, pv, idp) && ok
 		// (2) prepare once / bind many: the shared prepared statement, whose template must never change
 		o2, p := viaPrepared(text, ps)
-		ok = rp.check(b.ID, i, "prepared", o2, wantRej, lit, want, timeOp, sk, pt, text, pv) && ok
+		ok = rp.check(b.ID, i, "prepared", o2, wantRej, lit, want, timeOp, sk, pt, text, pv, idp) && ok
 		if p.err == nil {
 			if d := dumpOf(p.ps); d != p.dump {
 				rp.res.violate(b.ID, i, "template-mutated:prepared:"+sk+":"+pt, "Bind/TransformBound changed the prepared template of `%s` (params %s):\n before %s\n after  %s",
@@ -796,7 +937,7 @@ func (rp *replayer) behaviour(b vlib.Behaviour, svc, qsvc *lgrpc.VerifBydbQL) {
 			if r != nil {
 				o3.req = r.QueryRequest
 			}
-			ok = rp.check(b.ID, i, "cached", o3, wantRej, lit, want, timeOp, sk, pt, text, pv) && ok
+			ok = rp.check(b.ID, i, "cached", o3, wantRej, lit, want, timeOp, sk, pt, text, pv, idp) && ok
 			if cached != nil && stage != "parse" {
 				// the statement handed out by the cache is a parse of its key and nothing else
 				fresh, perr := bydbql.Prepare(text)
@@ -810,7 +951,7 @@ func (rp *replayer) behaviour(b vlib.Behaviour, svc, qsvc *lgrpc.VerifBydbQL) {
 				ok = rp.cacheState(b.ID, i, st, last, cres, svc) && ok
 			}
 			// (4) the real RPC handler on a service of its own (same bounds, same history)
-			ok = rp.service(b.ID, i, qsvc, st, text, ps, pv, wantRej, sk, pt) && ok
+			ok = rp.service(b.ID, i, qsvc, st, text, ps, pv, wantRej, sk, pt, idp) && ok
 		}
 		// no leak: every earlier (stmt, params) of this history still gives what it gave
 		for _, h := range history {
@@ -843,12 +984,28 @@ func (rp *replayer) behaviour(b vlib.Behaviour, svc, qsvc *lgrpc.VerifBydbQL) {
 			}
 		}
 		history = append(history, seen{text: text, params: ps, timeOp: timeOp, req: o1.req, rej: o1.rejected()})
+		if len(idp) == 1 && len(pv) == 1 && len(slotNames(stmt)) == 1 { // written-out cases: the one placeholder of the statement is an ID
+			rp.res.sampleID(idp[0], map[string]any{"statement": text, "params": pv, "spec_rejects": wantRej, "literalised": litText,
+				"oneshot_error": errText(o1.err), "prepared_error": errText(o2.err), "request": json.RawMessage(pj2(o2.req))})
+		}
 		if !wantRej && strings.Contains(vlib.Canon(pv), "'") { // written-out cases for the evidence: accepted hostile strings
 			rp.res.sample(map[string]any{"statement": text, "params": pv, "literalised": litText, "request": json.RawMessage(pj(o1.req))})
 		}
 		if !ok {
 			return
 		}
+	}
+}
+
+// countID records that a parameter of each listed kind was executed at a property-ID placeholder on path
+// and what the real code did with the statement: idpos_<path>_<idscalar|idlist>_<type>_<accepted|rejected>.
+func (rp *replayer) countID(path string, idp []string, rejected bool) {
+	verdict := "_accepted"
+	if rejected {
+		verdict = "_rejected"
+	}
+	for _, k := range idp {
+		rp.res.inc("idpos_" + path + "_" + k + verdict)
 	}
 }
 
@@ -892,12 +1049,13 @@ func (rp *replayer) cacheState(bid, step int, st, last map[string]any, cres stri
 }
 
 // service drives the real RPC handler (its own cache, same bounds, same history).
-func (rp *replayer) service(bid, step int, qsvc *lgrpc.VerifBydbQL, st map[string]any, text string, ps []*modelv1.TagValue, pv []any, wantRej bool, sk, pt string) bool {
+func (rp *replayer) service(bid, step int, qsvc *lgrpc.VerifBydbQL, st map[string]any, text string, ps []*modelv1.TagValue, pv []any, wantRej bool, sk, pt string, idp []string) bool {
 	_, err := qsvc.Query(ctx, text, ps)
 	rp.res.inc("executions_service")
 	code := status.Code(err)
 	// dispatched to the native service (which refuses the group) <=> accepted
 	accepted := code == codes.FailedPrecondition && strings.Contains(err.Error(), "pending deletion")
+	rp.countID("service", idp, !accepted)
 	if accepted == wantRej {
 		sig := "accepted-invalid-params"
 		if wantRej == false {
